@@ -140,12 +140,11 @@ theorem writeBack_sec (env : SerEnv) (d : DST) (name : String) (v : Int) (s : St
     · exact Sec.trans (Sec.upd (s' := s.setAt _) rfl (by simpa using h)) (runSer_sec _ _ (by simpa using h))
 
 /-- the three write-backs of `closeWrite`, as one in-section step -/
-theorem closeWrite_backs (cfg : Cfg) (d : DST) (ts : Nat) (s0 : St) (env : SerEnv)
-    (h : s0.c.inTracingSection = true) :
-    Sec s0 (let s1 := if d.feat.tsEnd.isSome then writeBack env d "timestamp_end" ts s0 else s0
-            let s2 := writeBack env d "content_size" s1.c.contentSize s1
-            if d.feat.discarded.isSome then writeBack env d "events_discarded" s2.c.eventsDiscarded s2 else s2) := by
+theorem closeBacks_sec (cfg : Cfg) (d : DST) (ts : Nat) (s0 : St) (h : s0.c.inTracingSection = true) :
+    Sec s0 (closeBacks cfg d ts s0) := by
+  unfold closeBacks
   simp only
+  generalize serEnvOf cfg d 0 ts s0.c = env
   have h1 : Sec s0 (if d.feat.tsEnd.isSome = true then writeBack env d "timestamp_end" ts s0 else s0) := by
     split
     · exact writeBack_sec _ _ _ _ _ h
@@ -159,18 +158,11 @@ theorem closeWrite_backs (cfg : Cfg) (d : DST) (ts : Nat) (s0 : St) (env : SerEn
     · exact Sec.refl h2.2
   exact Sec.trans h1 (Sec.trans h2 h3)
 
-theorem closeWrite_ext (cfg : Cfg) (d : DST) (ts : Nat) (saved : Bool) (s : St)
-    (h : s.c.inTracingSection = true) : Ext PSec s (closeWrite cfg d ts saved s) := by
-  unfold closeWrite
-  simp only
-  have hb := closeWrite_backs cfg d ts (s.setContentSize s.c.at_) (serEnvOf cfg d 0 ts (s.setContentSize s.c.at_).c)
-    (by simpa using h)
-  simp only at hb
-  generalize (if d.feat.discarded.isSome = true then _ else _) = s3 at hb
-  have h0 : Ext PSec s (s.setContentSize s.c.at_) := Ext.of_log_eq rfl
+theorem closeFinish_ext (d : DST) (ts : Nat) (saved : Bool) (s3 : St) : Ext PSec s3 (closeFinish d ts saved s3) := by
+  unfold closeFinish
   split
-  · exact h0.trans hb.1
-  · refine (h0.trans hb.1).trans ?_
+  · exact Ext.refl _ _
+  · simp only
     have h4 : Ext PSec s3 (if d.feat.tsEnd.isSome = true then s3.ev (.tsWrite "end" ts) else s3) := by
       split
       · exact Ext.ev _ (.tsWrite "end" ts) trivial
@@ -180,20 +172,26 @@ theorem closeWrite_ext (cfg : Cfg) (d : DST) (ts : Nat) (saved : Bool) (s : St)
     refine (Ext.ev s4 (.closed s4.c.contentSize s4.c.sequenceNumber s4.c.eventsDiscarded) trivial).trans ?_
     split <;> exact Ext.of_log_eq rfl
 
+theorem closeFinish_flag (d : DST) (ts : Nat) (saved : Bool) (s3 : St) (h : s3.c.inTracingSection = true) :
+    (closeFinish d ts saved s3).c.inTracingSection = (if (closeFinish d ts saved s3).halted then true else saved) := by
+  unfold closeFinish
+  cases h3 : s3.halted
+  · simp only [Bool.false_eq_true, if_false]
+    split <;> split <;> simp [h3]
+  · simp only [h3, if_true]; exact h
+
+theorem closeWrite_ext (cfg : Cfg) (d : DST) (ts : Nat) (saved : Bool) (s : St)
+    (h : s.c.inTracingSection = true) : Ext PSec s (closeWrite cfg d ts saved s) := by
+  unfold closeWrite
+  have hb := closeBacks_sec cfg d ts (s.setContentSize s.c.at_) (by simpa using h)
+  exact (Ext.of_log_eq (s' := s.setContentSize s.c.at_) rfl).trans (hb.1.trans (closeFinish_ext d ts saved _))
+
 theorem closeWrite_flag (cfg : Cfg) (d : DST) (ts : Nat) (saved : Bool) (s : St)
     (h : s.c.inTracingSection = true) :
     (closeWrite cfg d ts saved s).c.inTracingSection =
       (if (closeWrite cfg d ts saved s).halted then true else saved) := by
   unfold closeWrite
-  simp only
-  have hb := closeWrite_backs cfg d ts (s.setContentSize s.c.at_) (serEnvOf cfg d 0 ts (s.setContentSize s.c.at_).c)
-    (by simpa using h)
-  simp only at hb
-  generalize (if d.feat.discarded.isSome = true then _ else _) = s3 at hb
-  cases h3 : s3.halted
-  · simp only [Bool.false_eq_true, if_false]
-    split <;> split <;> simp [h3]
-  · simp only [h3, if_true]; exact hb.2
+  exact closeFinish_flag d ts saved _ (closeBacks_sec cfg d ts (s.setContentSize s.c.at_) (by simpa using h)).2
 
 theorem closeGuarded_sec (cfg : Cfg) (d : DST) (ts : Nat) (s : St)
     (h : s.c.inTracingSection = true) : Sec s (closeGuarded cfg d ts s) := by
@@ -222,10 +220,8 @@ theorem cbOpen_sec (cfg : Cfg) (d : DST) (s : St) (h : s.c.inTracingSection = tr
   · simp only
     have h1 := cbEnter_sec .open_ s h
     generalize cbEnter .open_ s = s1 at h1
-    have h2 : Sec s1 (s1.setPlat { s1.p with openCount := s1.p.openCount + 1 }) := Sec.upd rfl h1.2
-    have h3 := openPacket_sec cfg d
-      (if s1.p.openArgs.isEmpty = true then [] else s1.p.openArgs.getD (s1.p.openCount % s1.p.openArgs.length) [])
-      (s1.setPlat { s1.p with openCount := s1.p.openCount + 1 }) h2.2
+    have h2 : Sec s1 s1.bumpOpen := Sec.upd rfl h1.2
+    have h3 := openPacket_sec cfg d s1.openArgsNow s1.bumpOpen h2.2
     exact Sec.trans h1 (Sec.trans h2 (Sec.trans h3 (Sec.ev (.cbExit _ _) h3.2 trivial)))
 
 theorem setBuf_flag (bytes : Nat) (s : St) : (setBuf bytes s).c.inTracingSection = s.c.inTracingSection := by
@@ -254,8 +250,8 @@ theorem cbClose_sec (cfg : Cfg) (d : DST) (s : St) (h : s.c.inTracingSection = t
   · simp only
     have h1 := cbEnter_sec .close s h
     generalize cbEnter .close s = s1 at h1
-    have h2 : Sec s1 (s1.setPlat { s1.p with closeCount := s1.p.closeCount + 1 }) := Sec.upd rfl h1.2
-    have h3 := closePacket_sec cfg d (s1.setPlat { s1.p with closeCount := s1.p.closeCount + 1 }) h2.2
+    have h2 : Sec s1 s1.bumpClose := Sec.upd rfl h1.2
+    have h3 := closePacket_sec cfg d s1.bumpClose h2.2
     exact Sec.trans h1 (Sec.trans h2 (Sec.trans h3 (deliverAndSwap_sec _ _ _ h3.2)))
 
 theorem noSpace_sec (cf : Bool) (s : St) (h : s.c.inTracingSection = true) : Sec s (noSpace cf s).2 := by
@@ -409,9 +405,7 @@ theorem cbOpen_top (cfg : Cfg) (d : DST) (s : St) (h : s.c.inTracingSection = fa
   · simp only
     obtain ⟨h1, h2, _⟩ := cbEnter_top .open_ s
     generalize cbEnter .open_ s = s1 at h1 h2
-    have h3 := openPacket_top cfg d
-      (if s1.p.openArgs.isEmpty = true then [] else s1.p.openArgs.getD (s1.p.openCount % s1.p.openArgs.length) [])
-      (s1.setPlat { s1.p with openCount := s1.p.openCount + 1 }) (h2.trans h)
+    have h3 := openPacket_top cfg d s1.openArgsNow s1.bumpOpen (h2.trans h)
     exact ⟨h1.trans ((Ext.of_log_eq rfl).trans (h3.1.trans (Ext.ev _ (.cbExit _ _) trivial))), h3.2⟩
 
 theorem deliverAndSwap_top (wasOpen : Bool) (n : Nat) (s : St)
@@ -433,7 +427,7 @@ theorem cbClose_top (cfg : Cfg) (d : DST) (s : St) (h : s.c.inTracingSection = f
   · simp only
     obtain ⟨h1, h2, _⟩ := cbEnter_top .close s
     generalize cbEnter .close s = s1 at h1 h2
-    have h3 := closePacket_top cfg d (s1.setPlat { s1.p with closeCount := s1.p.closeCount + 1 }) (h2.trans h)
+    have h3 := closePacket_top cfg d s1.bumpClose (h2.trans h)
     have h4 := deliverAndSwap_top s1.c.packetIsOpen s1.p.closeCount _ h3.2
     exact ⟨h1.trans ((Ext.of_log_eq rfl).trans (h3.1.trans h4.1)), h4.2⟩
 
